@@ -37,7 +37,25 @@ func fastBackoff() backoff.Config {
 	return backoff.Config{BaseDelay: 20 * time.Millisecond, Multiplier: 1.2, Jitter: 0.1, MaxDelay: 100 * time.Millisecond}
 }
 
+// newShard creates a cluster and a manager and waits until every node answers a probe.  The probing itself
+// (short deadlines during a cold start) can run into the known wedges of C09; a shard that does not become
+// ready is discarded and the creation is retried twice before the engine gives up.
 func newShard(n int, mopts ...gorums.ManagerOption) (*shard, error) {
+	var err error
+	for attempt := 0; attempt < 3; attempt++ {
+		var s *shard
+		s, err = newShardOnce(n, mopts...)
+		if err == nil {
+			return s, nil
+		}
+		if s != nil {
+			go s.close()
+		}
+	}
+	return nil, err
+}
+
+func newShardOnce(n int, mopts ...gorums.ManagerOption) (*shard, error) {
 	cl, err := puppet.NewCluster(n)
 	if err != nil {
 		return nil, err
@@ -55,15 +73,16 @@ func newShard(n int, mopts ...gorums.ManagerOption) (*shard, error) {
 	}
 	s.all, err = s.mgr.NewConfiguration(s.qs, gorums.WithNodeMap(m))
 	if err != nil {
-		return nil, err
+		return s, err
 	}
 	// readiness: on a loaded machine the first stream to a node may not be up yet when the manager
 	// returns; requests issued then fail fast with Unavailable ("stream is down").  The engines assume
 	// healthy connections unless they break them, so wait until every node answers a probe.
 	for _, nd := range s.all.Nodes() {
 		nd := nd
-		if !waitFor(15*time.Second, func() bool { return probe(nd, 500*time.Millisecond) }) {
-			return nil, fmt.Errorf("node %d did not become reachable within 15s", nd.ID())
+		if !waitFor(10*time.Second, func() bool { return probe(nd, 500*time.Millisecond) }) {
+			w := diagnose()
+			return s, fmt.Errorf("node %d did not become reachable within 10s (diagnosis %q; %s)", nd.ID(), w.id, strings.Join(signatures(w.dump), "; "))
 		}
 	}
 	cl.D.ResetLog()
@@ -250,6 +269,25 @@ func canonErr(err error) (string, []string) {
 		ids = append(ids, x[1])
 	}
 	return kind + ":" + strings.Join(ids, ".") + ":" + m[2], notes
+}
+
+// ctxCanon restricts the node list of a "ctx:<ids>:<replies>" outcome to the nodes whose failure the
+// case's script delivered before it ended the context.  After the context has ended the outstanding
+// requests are answered locally — with the context's own error, or with the error of the stream reset
+// that a write outliving its context causes — and whether the loop still consumes such an answer before
+// it notices the context is a scheduling matter the properties do not constrain.
+func ctxCanon(out string, fedErr map[string]bool) string {
+	p := strings.Split(out, ":")
+	if len(p) != 3 || p[0] != "ctx" || p[1] == "*" {
+		return out
+	}
+	var ids []string
+	for _, id := range strings.Split(p[1], ".") {
+		if id != "" && fedErr[id] {
+			ids = append(ids, id)
+		}
+	}
+	return "ctx:" + strings.Join(ids, ".") + ":" + p[2]
 }
 
 // nodeErrTexts returns node id -> cause text from a QuorumCallError's text.
